@@ -401,7 +401,8 @@ def main():
                     if owner_sig is None: raise Unsupported("no signer-tied account found")
                 args = b"".join(idl.zero(x["type"]) for x in ii["args"])
                 specs.append(dict(program=pname, program_id=idl.address, name=name, disc=ii["discriminator"], args=list(args), roles=roles,
-                                  owner=owner_sig, guarded=attr.get((pname, name)) is not None, reachable=pinned, accounts=accounts))
+                                  owner=owner_sig, guarded=attr.get((pname, name)) is not None, reachable=pinned,
+                                  foreign=(exp or {}).get("foreign", {}), accounts=accounts))
             except Unsupported as e:
                 skipped.append(dict(program=pname, name=name, why=str(e), guarded=attr.get((pname, name)) is not None))
     text = json.dumps(dict(specs=specs, skipped=skipped), indent=0, sort_keys=True)
